@@ -67,6 +67,61 @@ CLAIMED = {
             "text and attribute values rendered with an output encoding must tokenize back to the original.",
             "Trusted: html.entities.html5 as the standard's entity table (2231 names), TLC. 32-bit TLC integers: overflow inputs "
             "saturate at 0x110000 in the spec.", "5/C14"),
+    "C01": ("model_checking",
+            "TLA+ specs TreeConstruction (23 insertion modes, adoption agency, foster parenting, foreign content, fragments) composed "
+            "with Tokenizer in Pipeline; TLC bounded-exhaustive over markup-fragment strings per theme x container x scripting with "
+            "structural theorems; spec->code replay of trees AND internal-state snapshots into both tree builders; TLC-computed state "
+            "cover (VIEW on abstract parser state) expanded into a transition-cover suite; code->spec trace validation (Trace_Tree)",
+            "Every string TLC enumerates is parsed by the composed specification and by the real parser (etree and dom builders); the "
+            "canonical trees and the parser's final internal state (mode, stack of open elements, active formatting elements, flags) "
+            "must be equal. TLC finds a shortest input per abstract parser state and the harness extends each by every token of a wide "
+            "alphabet; real result trees on arbitrary inputs in document mode and all 26 fragment contexts are re-derived by TLC.",
+            "The specification is transcribed phase by phase from the WHATWG algorithm AS html5lib implements it, with the deviations "
+            "from the June-2020 standard that I am certain of as named branches (listed known findings); clauses I could not confirm "
+            "offline follow the code (ASSUMED). template is not modelled (html5lib has none). Characters-token boundaries in the "
+            "frameset / colgroup-fragment modes are reproduced only for text without '&', NUL and stray '<' (such trace inputs are "
+            "skipped and counted). Bounds: <=3-4 fragments per theme exhaustive; cover prefixes <=3-5 fragments.", "5/C01"),
+    "C03": ("model_checking",
+            "TreeConstruction structural theorems (well-formed store, stack/AFE invariants, skeleton after EOF) checked by TLC in every "
+            "MC_Tree state; MC_Pump derives the stack-growing start tags from the specification; binding by replay (exceptions), "
+            "Trace_Skeleton on real results for arbitrary str/bytes inputs x builders x namespacing x contexts, model-derived depth pumping",
+            "TLC proves the skeleton and the structural invariants for every input in the bounds on the specification; the real parser "
+            "is bound to it by exact replay, must return a tree (no exception, wall-clock budget) for arbitrary text, random bytes and "
+            "encoded inputs under every builder/namespacing/context/scripting combination, its result is judged by TLC, and it is "
+            "driven to depth 1500-5000 with every (prefix, tag) pair that the model says grows the stack.",
+            "Non-termination is observed as a 20 s timeout, not proved. Deep (pumped) minidom results are only checked for totality. "
+            "The literal skeleton clause is violated by <noframes> after </frameset> (listed finding; it is also what the standard does).",
+            "5/C03"),
+    "C05": ("model_checking",
+            "TLA+ specs InputStream (readChunk / char / charsUntil / unget / position / error accounting under every read schedule) and "
+            "ByteBuffer (BufferedStream); TLC refinement theorems against the one-shot normalisation; replay with full state comparison; "
+            "call traces of the real stream under the real tokenizer validated for str / StringIO / short reads / chunk sizes / byte "
+            "deliveries in up to 39 encodings (Trace_InputStream, Trace_ByteBuffer)",
+            "TLC proves, on the intended design and for every read schedule of every source within the bound, that the stream machine "
+            "refines the one-shot normalisation, that position() and error accounting are functions of the consumed text, and that unget "
+            "then char is the identity at offset 0; every behaviour of the code-faithful model (three named deviations) is replayed on "
+            "the real stream objects; deliveries are compared exactly on the tree and on TLC-judged intended error positions.",
+            "Sources <=4-5 code points, <=6 client calls exhaustive; simulation to 12 calls. codecs.StreamReader is trusted but its output "
+            "must spell the source in every trace; malformed byte sequences excluded; BOM sniffing assumes the first 4 bytes arrive in "
+            "one read. End-to-end runs use the etree builder.", "5/C05"),
+    "C11": ("model_checking",
+            "TLA+ specs Walker (reference stream, non-recursive traversal loop, Lint acceptor, Rebuild) and EtreeWalker (cursor machine "
+            "over text/tail shapes) ; TLC exhaustive over small trees x start nodes; replay of trees, shapes with every navigation call "
+            "and arbitrary streams through Lint; walks of both real walkers validated (Trace_Walker, Trace_EtreeWalker)",
+            "TLC proves on the intended specification that the walker stream of every parser-shaped tree within the bound is well-formed, "
+            "Lint-accepted, rebuilds to the walked tree and is independent of text segmentation, and that the traversal loop and the "
+            "etree cursor machine refine it; all exported behaviours are replayed into html5lib with exact comparison and recorded walks "
+            "of parsed and hand-built trees are validated with total verdicts.",
+            "Small-tree exhaustive (<=5-6 nodes); larger/deeper trees by validated traces only. The cross-walker clause is judged only "
+            "for documents on which both builders built the same tree. Void list and None/'' doctype identification are ASSUMED.", "5/C11"),
+    "C19": ("model_checking",
+            "TLA+ spec Sax (adapter token by token, SaxOK acceptor, RebuildSax) on the Walker tree space; TLC theorems; replay into "
+            "to_sax with a recording AttributesNS handler; to_sax runs on both real walkers validated token by token (Trace_Sax)",
+            "TLC proves that ToSax(Walk(t)) is accepted (one document pair, balanced prefix mappings, proper nesting) and rebuilds to the "
+            "tree without comments and doctype for every tree in the bound; every exported (stream, events) pair is replayed into the "
+            "real to_sax and real runs on parsed trees are validated by TLC.",
+            "Foreign-attribute table, prefix-mapping order and qname conventions follow the code (ASSUMED). Failures on parsed trees arise "
+            "only from the two walker deviations listed as findings.", "5/C19"),
 }
 
 NOT_YET = "check not built yet in this round (planned, see DESIGN.md section 5)"
